@@ -334,3 +334,67 @@ Lemma set_item_shared_lemma s xs i w ph :
   X (item_of (set_set_Xs s xs) i w ph) = nthq xs i /\
   st (item_of (set_set_Xs s xs) i w ph) = st (item_of s i w ph).
 Proof. split; reflexivity. Qed.
+
+(* ---- handles onto a set's conversion array ---- *)
+Lemma write_from_length ys : forall xs lo, length (write_from xs lo ys) = length xs.
+Proof. induction ys as [|y t IH]; intros xs lo; simpl; auto. rewrite IH. apply upd_length. Qed.
+
+Lemma write_from_outside ys : forall xs lo j, (j < lo \/ lo + length ys <= j)%nat ->
+  nthq (write_from xs lo ys) j = nthq xs j.
+Proof.
+  induction ys as [|y t IH]; intros xs lo j H; simpl in *; auto.
+  rewrite IH by lia. apply nth_upd_other. lia.
+Qed.
+
+Lemma write_from_inside ys : forall xs lo k, (k < length ys)%nat -> (lo + length ys <= length xs)%nat ->
+  nthq (write_from xs lo ys) (lo + k) = nthq ys k.
+Proof.
+  induction ys as [|y t IH]; intros xs lo k Hk Hl; simpl in *; [lia|].
+  destruct k as [|k].
+  - rewrite Nat.add_0_r. rewrite write_from_outside by lia. unfold nthq at 2; simpl.
+    apply nth_upd_same. lia.
+  - replace (lo + S k)%nat with (S lo + k)%nat by lia. rewrite IH.
+    + unfold nthq; reflexivity.
+    + lia.
+    + rewrite upd_length. lia.
+Qed.
+
+Lemma set_all_visible_lemma xs ys xs' :
+  sstep xs (SSetAll ys) = Ok xs' -> length ys = length xs ->
+  length xs' = length xs /\ forall i, (i < length xs)%nat -> hread xs' (HItem i) = [nthq ys i].
+Proof.
+  unfold sstep, broadcast. intros H L.
+  assert (B : (match ys with [y] => Ok (repeat y (length xs)) | _ =>
+              if Nat.eqb (length ys) (length xs) then Ok ys else Err EValue end) = Ok ys).
+  { destruct ys as [|y [|y2 t]]; simpl in *.
+    - rewrite <- L. reflexivity.
+    - rewrite <- L. reflexivity.
+    - rewrite <- L. simpl. rewrite Nat.eqb_refl. reflexivity. }
+  rewrite B in H. simpl in H. inversion H; subst. split.
+  - apply write_from_length.
+  - intros i Hi. simpl. f_equal. change i with (0 + i)%nat at 1.
+    apply write_from_inside; lia.
+Qed.
+
+Lemma item_set_visible_lemma xs i x xs' :
+  sstep xs (SItemSet i x) = Ok xs' ->
+  hread xs' HSet = upd xs i x /\ nthq xs' i = x /\ (forall j, j <> i -> nthq xs' j = nthq xs j)
+  /\ length xs' = length xs.
+Proof.
+  unfold sstep. destruct (Nat.ltb i (length xs)) eqn:E; [|discriminate].
+  apply Nat.ltb_lt in E. intros H; inversion H; subst. simpl. repeat split.
+  - apply nth_upd_same; auto.
+  - intros j N. apply nth_upd_other. congruence.
+  - apply upd_length.
+Qed.
+
+(* a sub-set [lo, lo+len) sees a write through the parent, and the parent sees a write through it *)
+Lemma sub_elem_visible_lemma xs lo len i x xs' :
+  sstep xs (SSubElem lo len i x) = Ok xs' -> (lo + len <= length xs)%nat ->
+  nthq xs' (lo + i) = x /\ (forall j, j <> (lo + i)%nat -> nthq xs' j = nthq xs j).
+Proof.
+  unfold sstep. destruct (Nat.ltb i len) eqn:E; [|discriminate]. apply Nat.ltb_lt in E.
+  intros H L; inversion H; subst. split.
+  - apply nth_upd_same. lia.
+  - intros j N. apply nth_upd_other. congruence.
+Qed.
